@@ -13,6 +13,7 @@
 //!   rstburst K n=N                   N clients connect and reset (RST) without yielding to the runtime (use with `ct` in the head) -> rb=done
 //!   staller K off=N mode=stop|close|garbage   raw client that misbehaves after N handshake bytes -> s#j=started
 //!   xchg J                           one message over raw connection J (direction by socket type) -> x#J=ok|fail:<why>
+//!   bigxchg J SIZE                   raw peer J sends one message with a SIZE-byte frame, recv awaited in the root future -> X#J=ok|fail:<why>
 //!   park                             start a recv() that parks, in a background task (fair-queue sockets)
 //!   probe K                          plain connect to bind #K -> p#K=accepted|refused
 //!   binds                            -> binds=#a,#b (sorted)
@@ -380,6 +381,52 @@ async fn scenario(head: Vec<String>, ops: Vec<Vec<String>>) -> Vec<String> {
                     xchg(&stype, sock.as_mut(), raws.get_mut(j).and_then(|r| r.as_mut()), &tag).await
                 };
                 out.push(format!("x#{}={}", j, res));
+            }
+            "bigxchg" => {
+                // one message with a SIZE-byte last frame from raw peer J; the socket's recv is awaited right here, in the
+                // root future of the runtime (where a task's cooperative budget is not reset by a scheduler turn) -> X#J=ok|fail:..
+                let j: usize = t[1].parse().unwrap();
+                let size: usize = t[2].parse().unwrap();
+                let res = match (sock.as_mut(), raws.get_mut(j).and_then(|r| r.take())) {
+                    (Some(s), Some(mut raw)) => {
+                        let mut wire = Vec::with_capacity(size + 32);
+                        if stype == "REP" {
+                            wire.extend_from_slice(&[1u8, 0]);
+                        }
+                        wire.push(2);
+                        wire.extend_from_slice(&(size as u64).to_be_bytes());
+                        let mut body = vec![0x5au8; size];
+                        if stype == "XPUB" && size > 0 {
+                            body[0] = 1;
+                        }
+                        wire.extend_from_slice(&body);
+                        let writer = tokio::spawn(async move {
+                            let _ = raw.s.write_all(&wire).await;
+                            tokio::time::sleep(Duration::from_secs(30)).await;
+                            drop(raw);
+                        });
+                        let mut out_s = "fail:timeout".to_string();
+                        for _ in 0..4 {
+                            let f = s.recv().unwrap();
+                            match tokio::time::timeout(Duration::from_secs(20), f).await {
+                                Err(_) => break,
+                                Ok(Err(e)) => out_s = format!("fail:{}", zeromq::__verif::error_class(&e)),
+                                Ok(Ok(m)) => {
+                                    let fr = zmsg_frames(&m);
+                                    if fr.last().map(|f| f.len()) == Some(size) {
+                                        out_s = "ok".to_string();
+                                        break;
+                                    }
+                                    out_s = format!("fail:wrong-size:{}", fr.last().map(|f| f.len()).unwrap_or(0));
+                                }
+                            }
+                        }
+                        writer.abort();
+                        out_s
+                    }
+                    _ => "fail:gone".to_string(),
+                };
+                out.push(format!("X#{}={}", j, res));
             }
             "park" => {
                 let mut s = sock.take().expect("socket gone");
